@@ -112,6 +112,10 @@ void ParallelAction::onPause() {
 void ParallelAction::onResume() {
     AssembleAction::onResume();
 
+    //! 暂停期间可能有子动作结束了，恢复时要补上结束条件的检查
+    if (tryFinish())
+        return;
+
     for (Action *action : children_) {
         if (action->state() == State::kPause)
             action->resume();
@@ -138,19 +142,39 @@ void ParallelAction::pauseAllActions() {
     }
 }
 
-void ParallelAction::onChildFinished(int index, bool is_succ) {
-    if (state() == State::kRunning) {
-        finished_children_[index] = is_succ;
-
-        if ((mode_ == Mode::kAnySucc && is_succ) ||
-            (mode_ == Mode::kAnyFail && !is_succ)) {
-            stopAllActions();
-            finish(true);
-
-        } else if (finished_children_.size() == children_.size()) {
-            finish(true);
-        }
+bool ParallelAction::tryFinish() {
+    bool is_any_succ = false;
+    bool is_any_fail = false;
+    for (auto &item : finished_children_) {
+        if (item.second)
+            is_any_succ = true;
+        else
+            is_any_fail = true;
     }
+
+    if ((mode_ == Mode::kAnySucc && is_any_succ) ||
+        (mode_ == Mode::kAnyFail && is_any_fail)) {
+        stopAllActions();
+        finish(true);
+        return true;
+
+    } else if (finished_children_.size() == children_.size()) {
+        finish(true);
+        return true;
+    }
+
+    return false;
+}
+
+void ParallelAction::onChildFinished(int index, bool is_succ) {
+    //! 暂停期间子动作的结束也要记录，等恢复时再判定，否则该子动作的结果就丢失了
+    if (!isUnderway())
+        return;
+
+    finished_children_[index] = is_succ;
+
+    if (state() == State::kRunning)
+        tryFinish();
 }
 
 void ParallelAction::onChildBlocked(int, const Reason &why, const Trace &trace) {
